@@ -486,6 +486,9 @@ func (r *Runner) runJob(job Job) *JobResult {
 			}
 			script := Script([]*Term{ob.Formula}, ScriptOpts{GetValues: gv})
 			q := &pendingQuery{res: res, script: script, getvals: names, timeout: timeout, kind: ob.Kind, nlsat: job.Nlsat}
+			if ob.Kind == "cover" && q.timeout > 30 {
+				q.timeout = 30
+			}
 			// integer re-query script (for replayable models) for real-valued inputs
 			iv := map[string]bool{}
 			for _, inp := range p.inputs {
